@@ -144,6 +144,18 @@ def run(ctx) -> None:
         po |= origins(pf.node, r)
     ctx.check(bool(prets) and all(b == "self._path" and not w for b, w in po), RK, "ObservedWatch.path returns the stored path", f"`path` returns {sorted((b, list(w)) for b, w in po)}", pf.loc)
 
+    # ---- synthetic events name the walked entry itself (shared instances with C14)
+    RSY = ctx.rule(
+        "C19/synthetic-paths-name-the-entry",
+        "a synthetic event's path is join(walk root, entry name) exactly as os.walk produced it (same type as the caller's path), and its "
+        "old path is the old directory followed by the same relative path (prefix-anchored rewrite, no substring replacement, no string "
+        "formatting of path objects)",
+        floor=8,
+    )
+    from .c14 import generators
+
+    generators(ctx, RSY, RSY, P)
+
     # ---- raw codecs
     from ..fixtures import FX_CODEC, must_fire, raw_codec_calls
 
@@ -162,6 +174,8 @@ def run(ctx) -> None:
 IN = "observers/inotify.py"
 API = "observers/api.py"
 VARIANTS = [
+    dict(name="B synthetic moved source by substring replacement", expect="fire", rule="C19/synthetic-paths-name-the-entry", edits=[("events.py", 'renamed_path = src_dir_path + full_path[len(dest_dir_path) :] if src_dir_path else ""', 'renamed_path = full_path.replace(dest_dir_path, src_dir_path) if src_dir_path else ""')]),
+    dict(name="B synthetic path formatted into a str", expect="fire", rule="C19/synthetic-paths-name-the-entry", edits=[("events.py", "            full_path = os.path.join(root, directory)  # type: ignore[call-overload]\n            yield DirCreatedEvent(full_path, is_synthetic=True)", "            full_path = f\"{root}{os.sep}{directory}\"\n            yield DirCreatedEvent(full_path, is_synthetic=True)")]),
     dict(name="B watch key decodes the path", expect="fire", rule="C19/watch-identity-separates-path-types", edits=[(API, "        return self.path, self.is_recursive, self.event_filter", "        return os.fsdecode(self.path), self.is_recursive, self.event_filter"), (API, "import queue\n", "import os\nimport queue\n")]),
     dict(name="E key reads the backing field", expect="silent", edits=[(API, "        return self.path, self.is_recursive, self.event_filter", "        return self._path, self.is_recursive, self.event_filter")]),
     dict(name="B raw event.src_path passed to a constructor", expect="fire", rule="C19/decode-discipline", edits=[(IN, "                cls = DirModifiedEvent if event.is_directory else FileModifiedEvent\n                self.queue_event(cls(src_path))", "                cls = DirModifiedEvent if event.is_directory else FileModifiedEvent\n                self.queue_event(cls(event.src_path))")]),
